@@ -40,6 +40,8 @@ pub struct JudgeInfo {
     pub worst_dkw_ratio: f64,
     /// largest cell margin (1 = at the rejection threshold)
     pub worst_cell_margin: f64,
+    /// G statistic / threshold
+    pub g_ratio: f64,
 }
 
 impl<T: Copy + PartialOrd + std::fmt::Debug> EdgeTable<T> {
@@ -106,7 +108,46 @@ impl<T: Copy + PartialOrd + std::fmt::Debug> EdgeTable<T> {
                 cell = Some(Reject { test: "cell".into(), region: self.cell_name(j), observed: counts[j] as f64 / nf, expected_lo: p_lo, expected_hi: p_hi, margin: mg });
             }
         }
-        (dkw.into_iter().chain(cell).collect(), info)
+        // ---- G statistic over the well-resolved, well-populated cells ----------------
+        // More powerful than the two tests above against distortions spread over many
+        // cells.  Conservative use of the resolution interval: a cell whose frequency lies
+        // inside [p_lo, p_hi] contributes 0, otherwise the nearer bound is its expectation.
+        // Threshold: Wilson-Hilferty quantile of chi^2(df) at alpha * 1e-3 (safety margin for
+        // the asymptotic approximation); only cells with N p >= 200 take part.
+        let mut g = 0.0;
+        let mut df = 0usize;
+        for j in 0..ncell {
+            let (p_lo, p_hi) = self.cell_prob(j, extra);
+            if !(p_lo > 0.0) || nf * p_lo < 200.0 || (p_hi - p_lo) > 1e-3 * p_hi {
+                continue;
+            }
+            df += 1;
+            let o = counts[j] as f64;
+            let f = o / nf;
+            let e = if f < p_lo {
+                nf * p_lo
+            } else if f > p_hi {
+                nf * p_hi
+            } else {
+                continue;
+            };
+            if o > 0.0 {
+                g += 2.0 * (o * (o / e).ln() - (o - e));
+            } else {
+                g += 2.0 * e;
+            }
+        }
+        let mut gt: Option<Reject> = None;
+        if df >= 8 {
+            let z = if alpha >= 5e-8 { 6.3613 } else { 7.0345 }; // Phi^-1(1 - alpha*1e-3) for 1e-7 / 1e-9
+            let d = df as f64;
+            let thr = d * (1.0 - 2.0 / (9.0 * d) + z * (2.0 / (9.0 * d)).sqrt()).powi(3);
+            info.g_ratio = g / thr;
+            if g > thr {
+                gt = Some(Reject { test: "g".into(), region: format!("{df} resolved cells"), observed: g, expected_lo: d, expected_hi: thr, margin: g / thr });
+            }
+        }
+        (dkw.into_iter().chain(cell).chain(gt).collect(), info)
     }
 
     pub fn cell_name(&self, j: usize) -> String {
